@@ -56,6 +56,9 @@ pub enum COp {
     CrashAfterPrepare,
     /// a batch from the cloud applied outside a transaction (sync path)
     SyncBatch(Vec<(u8, u8, u8)>),
+    /// the same, and the batch also carries the last-writer record exactly as the local store has it
+    /// (a fetch of the whole external state by the signer that wrote it last)
+    SyncBatchW(Vec<(u8, u8, u8)>),
 }
 
 #[derive(Clone, Debug, Serialize, Deserialize)]
@@ -120,6 +123,7 @@ fn cop_strat() -> impl Strategy<Value = COp> {
         3 => Just(COp::Commit),
         1 => Just(COp::CrashAfterPrepare),
         1 => batch_strat().prop_map(COp::SyncBatch),
+        1 => batch_strat().prop_map(COp::SyncBatchW),
     ]
 }
 
@@ -562,7 +566,7 @@ impl C16 {
                     txn.clear();
                     cloud.enter().unwrap();
                 }
-                COp::SyncBatch(b) => {
+                COp::SyncBatch(b) | COp::SyncBatchW(b) => {
                     // outside a transaction: finish the current one first
                     let muts = cloud.prepare();
                     check_muts(&muts, &txn, &committed)
@@ -579,11 +583,15 @@ impl C16 {
                             ok = false;
                         }
                     }
-                    let r = cloud.put_batch_unlogged(
-                        b.iter()
-                            .map(|(k, ver, v)| KVV(KEYS[*k as usize].to_string(), (*ver as u64, value(*v))))
-                            .collect(),
-                    );
+                    let mut batch: Vec<KVV> = b.iter().map(|(k, ver, v)| KVV(KEYS[*k as usize].to_string(), (*ver as u64, value(*v)))).collect();
+                    if matches!(op, COp::SyncBatchW(_)) {
+                        if let Some((ver, val)) = base.get(vls_persist::kvv::cloud::LAST_WRITER_KEY) {
+                            // identical to the local record: a no-op for the model
+                            batch.push(KVV(vls_persist::kvv::cloud::LAST_WRITER_KEY.to_string(), (*ver, val.clone())));
+                            st.class("cloud:sync_batch_with_last_writer_record");
+                        }
+                    }
+                    let r = cloud.put_batch_unlogged(batch);
                     if r.is_ok() != ok {
                         return fail("cloud.sync_batch", i, format!("{:?} -> {:?}, model expects ok={}", op, r, ok));
                     }
